@@ -1,7 +1,7 @@
 (** The sender-side theorems of C01 in their final form, over the observable frame log. *)
 From Coq Require Import List ZArith Bool Lia.
 From V Require Import Gen.Params Lib.Hex Wire.Varint SendStream.Model SendStream.ProofsBase SendStream.ProofsInv
-  SendStream.ProofsCov SendStream.ProofsOut.
+  SendStream.ProofsCov SendStream.ProofsOut SendStream.ProofsFin.
 Import ListNotations.
 Open Scope Z_scope.
 
@@ -25,6 +25,13 @@ Proof.
   - discriminate.
 Qed.
 
+Lemma final_InvF : late s = false -> Inv s /\ InvF s.
+Proof.
+  intros H. unfold s in *. rewrite run_fst in *. apply run_InvF; auto.
+  - apply init_Inv.
+  - apply init_InvF.
+Qed.
+
 (* every frame popStreamFrame ever returned carries the written bytes of its range *)
 Lemma emitted_good : late s = false -> Forall (good (W s)) E.
 Proof. intros H. rewrite <- final_emitted. apply (i_em _ (final_Inv H)). Qed.
@@ -35,19 +42,23 @@ Theorem sender_frames_consistent :
      0 <= f_off f /\ f_end f <= zlen (W s) /\
      f_data f = zfirstn (zlen (f_data f)) (zskipn (f_off f) (W s))) /\
   contiguous 0 (emittedNew s) (writeOffset s) /\
-  (resetErr s = None -> forall f, In f E -> f_fin f = true ->
-     finishedWriting s = true /\ f_end f = zlen (W s)).
+  (forall f, In f E -> f_fin f = true -> finishedWriting s = true /\ f_end f = zlen (W s)).
 Proof.
-  intros HL. pose proof (emitted_good HL) as HG. rewrite Forall_forall in HG. repeat split.
+  intros HL. pose proof (emitted_good HL) as HG. rewrite Forall_forall in HG.
+  destruct (final_InvF HL) as [HI HF]. repeat split.
   - apply (good_range _ _ (HG f H)).
   - apply (good_range _ _ (HG f H)).
   - apply good_slice. auto.
-  - apply (i_contig _ (final_Inv HL)).
-  - destruct (final_Inv2 H) as [_ H2]. apply (j_fin _ H2 f); auto.
-    unfold allf. rewrite !in_app_iff. right. right. right. rewrite final_emitted. exact H0.
-  - destruct (final_Inv2 H) as [_ H2]. apply (j_fin _ H2 f); auto.
-    unfold allf. rewrite !in_app_iff. right. right. right. rewrite final_emitted. exact H0.
+  - apply (i_contig _ HI).
+  - apply (k_fin _ HF f); auto. rewrite !in_app_iff. right. right. rewrite final_emitted. exact H.
+  - apply (k_fin _ HF f); auto. rewrite !in_app_iff. right. right. rewrite final_emitted. exact H.
 Qed.
+
+(* a stream that was reset without a reliable size never holds a buffered frame, and
+   isNewlyCompleted fires as soon as nothing is in flight or queued *)
+Theorem reset_stream_holds_no_buffer :
+  late s = false -> resetErr s <> None -> ro s = 0 -> nextFrame s = None.
+Proof. intros HL. destruct (final_InvF HL) as [_ HF]. apply (k_nf _ HF). Qed.
 
 (* unless the stream was reset (or torn down with the connection): every byte handed out so far
    is acked, in flight, or waiting in the retransmission queue; so is the FIN once sent;
